@@ -12,7 +12,8 @@ class SpecC03(e1_driver.Spec):
                                   'obj_array', 'fn_dict'],
                    n_batch=[1, 1, 2, 5, 7, 10, 20, 50],
                    fault_kinds=['stop_resume', 'stop_resume', 'kill', 'kill',
-                                'slice', 'toggle', 'timeout'])
+                                'kill_in_write', 'slice', 'toggle',
+                                'timeout'])
     runs = dict(quick=96, thorough=1800)
     budget = dict(quick=130, thorough=1500)
     sut_exception_is_violation = True
@@ -37,7 +38,7 @@ class SpecC03(e1_driver.Spec):
         f = r.get('faults') or {}
         p = r.get('probes') or {}
         fired = sum(f.get(k, 0) for k in ('stop_resume', 'kill', 'toggle',
-                                         'slice'))
+                                         'slice', 'kill_in_write'))
         return fired > 0 and p.get('transfers_applied', 0) > 0
 
     def monitor_stats(self, m):
